@@ -22,7 +22,7 @@ RULE = (
 )
 ASSUMPTIONS = ["NPlatePerCellLine: 'no sample' is read as no sample that still has unobserved experiments in the output (the observed part passes through, C11)"]
 REQUIRED = {"returned_SampleSegregating": {"quick": 150, "thorough": 3000}, "returned_Pairwise": {"quick": 40, "thorough": 1000}, "returned_MergeMin": {"quick": 60, "thorough": 1500}, "returned_MergeTopBottom": {"quick": 60, "thorough": 1500}, "returned_FixedSize": {"quick": 80, "thorough": 2000}, "returned_OptimalSize": {"quick": 80, "thorough": 2000}, "returned_NPlatePerCellLine": {"quick": 60, "thorough": 1500}, "returned_SparseCover": {"quick": 80, "thorough": 2000}, "returned_combo_filter": {"quick": 80, "thorough": 2000}}
-N_OPS = {"quick": 2000, "thorough": 48000}
+N_OPS = {"quick": 4800, "thorough": 64000}
 
 
 def unobs_plates(s):
